@@ -43,8 +43,13 @@ class SessionCache(object):
         # Maps sessionIDs to sessions
         self.entriesDict = {}
 
-        #Circular list of (sessionID, timestamp) pairs
-        self.entriesList = [(None,None)] * maxEntries
+        #Circular list of (sessionID, timestamp, generation) tuples
+        self.entriesList = [(None, None, None)] * maxEntries
+
+        # generation of the newest list entry for every sessionID, older
+        # list entries of an ID that was stored again are stale
+        self._latest = {}
+        self._generation = 0
 
         self.firstIndex = 0
         self.lastIndex = 0
@@ -73,17 +78,27 @@ class SessionCache(object):
         self.lock.acquire()
         try:
             #Add the new element
+            self._generation += 1
             self.entriesDict[bytes(sessionID)] = session
-            self.entriesList[self.lastIndex] = (bytes(sessionID), time.time())
+            self._latest[bytes(sessionID)] = self._generation
+            self.entriesList[self.lastIndex] = (bytes(sessionID), time.time(),
+                                                self._generation)
             self.lastIndex = (self.lastIndex+1) % len(self.entriesList)
 
             #If the cache is full, we delete the oldest element to make an
             #empty space
             if self.lastIndex == self.firstIndex:
-                del(self.entriesDict[self.entriesList[self.firstIndex][0]])
+                self._drop(self.entriesList[self.firstIndex])
                 self.firstIndex = (self.firstIndex+1) % len(self.entriesList)
         finally:
             self.lock.release()
+
+    def _drop(self, entry):
+        """Forget the session of a list entry, unless it was stored anew."""
+        sessionID, _, generation = entry
+        if self._latest.get(sessionID) == generation:
+            del self.entriesDict[sessionID]
+            del self._latest[sessionID]
 
     #Delete expired items
     def _purge(self):
@@ -96,7 +111,7 @@ class SessionCache(object):
         index = self.firstIndex
         while index != self.lastIndex:
             if currentTime - self.entriesList[index][1] > self.maxAge:
-                del(self.entriesDict[self.entriesList[index][0]])
+                self._drop(self.entriesList[index])
                 index = (index+1) % len(self.entriesList)
             else:
                 break
